@@ -70,6 +70,10 @@ func (g *KeyGen) New(kt KeyType, nonce bool) *Key {
 	kid := ""
 	if g.n%3 == 0 {
 		kid = fmt.Sprintf("key-%d", g.n)
+		if g.n%2 == 0 {
+			// a DID URL with a query: characters that JSON encoders may or may not escape
+			kid = fmt.Sprintf("did:sim:ctrl?service=keys&relativeRef=%%2Fk<%d>#key-%d", g.n, g.n)
+		}
 	}
 
 	var pub interface{}
